@@ -169,4 +169,15 @@ PROPS = {
         "assumptions": ["requests the statement does not list as invalid (odd but legal names, unknown task ids for position/list, maintenance operations) may be answered with any of the three codes",
                         "maintenance.InitMsgLog() is called once per process as CDCServer.Run does"],
     },
+    "C18": {
+        "pkg": "hserver", "test": "TestC18", "level": "exploration",
+        "quick": T(16, 6, timeout=900), "thorough": T(16, 150, timeout=7000),
+        "rule": "REAL HTTP handler + MetaCDC at log level debug; everything the service logs (core/log -> stdout/stderr of the process, re-pointed to a capture file) and every HTTP answer is searched for the secrets. "
+                "rapid state machine: create with credentials in every shape (Milvus username+password, token, both; Kafka SASL username+password), each secret a unique canary; outcomes success, rejected by validation after decoding, "
+                "duplicate, unreachable target, transient store failure at a drawn call of create/start; then get / list / position / pause / resume (with transient store failure) / delete / restart with reload (clean, store failure during start, downstream failing). "
+                "Oracle: no canary (raw or base64) in any response body or in anything logged since the previous step. non-trivial = a failure path was taken after secrets had been accepted; distinct = distinct history",
+        "assumptions": ["the Milvus user name is not treated as a secret (the statement lists passwords, tokens and SASL secrets)",
+                        "a secret supplied with a wrong JSON type (decode error text) is not generated",
+                        "log lines written by goroutines after the case ended are attributed to no case (canaries are unique per case)"],
+    },
 }
